@@ -5,6 +5,24 @@ open Datatypes
 open BinInt
 open Io
 
+let rec upd_msgs k toks acc =
+  if k = 0 then (Stdlib.List.rev acc, toks) else
+  match toks with
+  | "r" :: d :: e :: o :: leap :: itv :: kind :: secs :: nanos :: phc :: as_s :: as_n :: tl ->
+    let age = if z_of_string kind = Z0 then Some (z_of_string secs, z_of_string nanos) else None in
+    upd_msgs (k - 1) tl (Updater.MReport (z_of_string d, z_of_string e, z_of_string o, z_of_string leap, z_of_string itv, age,
+                                          z_of_string phc, { Mach.ts_sec = z_of_string as_s; Mach.ts_nsec = z_of_string as_n }) :: acc)
+  | ("m" | "p") :: g :: tl -> upd_msgs (k - 1) tl (Updater.MMissing (z_of_string g <> Z0) :: acc)
+  | _ -> failwith "upd: bad message list"
+
+let upd_records cs =
+  String.concat " " (string_of_int (Stdlib.List.length cs) ::
+    Stdlib.List.concat_map (fun c ->
+      [string_of_z c.Client.c_as_of.Mach.ts_sec; string_of_z c.Client.c_as_of.Mach.ts_nsec;
+       string_of_z c.Client.c_void_after.Mach.ts_sec; string_of_z c.Client.c_void_after.Mach.ts_nsec;
+       string_of_z c.Client.c_bound; string_of_z c.Client.c_drift;
+       string_of_z (Client.status_code c.Client.c_status)]) cs)
+
 let handle (toks : string list) : string =
   match toks with
   | "gen" :: g :: [] ->
@@ -38,25 +56,20 @@ let handle (toks : string list) : string =
     let age = if z_of_string kind = Z0 then Some (z_of_string secs, z_of_string nanos) else None in
     string_of_z (Client.status_code (Bound.classify (z_of_string leap) (z_of_string itv) age))
   | "upd" :: drift :: n :: rest ->
-    let rec msgs k toks acc =
-      if k = 0 then Stdlib.List.rev acc else
-      match toks with
-      | "r" :: d :: e :: o :: leap :: itv :: kind :: secs :: nanos :: phc :: as_s :: as_n :: tl ->
-        let age = if z_of_string kind = Z0 then Some (z_of_string secs, z_of_string nanos) else None in
-        msgs (k - 1) tl (Updater.MReport (z_of_string d, z_of_string e, z_of_string o, z_of_string leap, z_of_string itv, age,
-                                          z_of_string phc, { Mach.ts_sec = z_of_string as_s; Mach.ts_nsec = z_of_string as_n }) :: acc)
-      | ("m" | "p") :: g :: tl -> msgs (k - 1) tl (Updater.MMissing (z_of_string g <> Z0) :: acc)
-      | _ -> failwith "upd: bad message list" in
-    let ms = msgs (int_of_string n) rest [] in
+    let (ms, _) = upd_msgs (int_of_string n) rest [] in
     (match Updater.urun (Updater.u_init (z_of_string drift)) ms with
      | None -> "panic"
-     | Some (_, cs) ->
-       String.concat " " (string_of_int (Stdlib.List.length cs) ::
-         Stdlib.List.concat_map (fun c ->
-           [string_of_z c.Client.c_as_of.Mach.ts_sec; string_of_z c.Client.c_as_of.Mach.ts_nsec;
-            string_of_z c.Client.c_void_after.Mach.ts_sec; string_of_z c.Client.c_void_after.Mach.ts_nsec;
-            string_of_z c.Client.c_bound; string_of_z c.Client.c_drift;
-            string_of_z (Client.status_code c.Client.c_status)]) cs))
+     | Some (_, cs) -> upd_records cs)
+  | "upd2" :: drift1 :: n1 :: rest ->
+    (* two instances of the daemon, one after the other, over one segment *)
+    let (ms1, rest) = upd_msgs (int_of_string n1) rest [] in
+    (match rest with
+     | drift2 :: n2 :: rest ->
+       let (ms2, _) = upd_msgs (int_of_string n2) rest [] in
+       (match Updater.lives [ (z_of_string drift1, ms1); (z_of_string drift2, ms2) ] with
+        | None -> "panic"
+        | Some cs -> upd_records cs)
+     | _ -> failwith "upd2: second life missing")
   | "cli" :: kind :: r :: [] ->
     (* kind 0: option omitted; 1: value r (as parsed by clap into a u32, or outside u32) *)
     (match Cli.cli_ppb (if kind = "0" then None else Some (z_of_string r)) with
